@@ -391,7 +391,13 @@ func takePenalty(currentDB *state.StateDB, val *state.Validator, penaltyAmount *
 		obligation.Div(obligation, big.NewInt(int64(params.CommissionRateBase)))
 		currTotal.Sub(currTotal, obligation)
 	}
-	per, rem := new(big.Int).QuoRem(currTotal, val.Stake, new(big.Int))
+	// a validator below one stake unit has Token > 0 and Stake == 0 (the house role has no minimum self stake, and
+	// repeated penalties get any validator there): nothing to share per stake, the validator bears the whole penalty.
+	// Dividing by the zero stake panicked inside EndBlock - for the builder and for every importer of such a block.
+	per, rem := new(big.Int), new(big.Int).Set(currTotal)
+	if val.Stake.Sign() > 0 {
+		per, rem = new(big.Int).QuoRem(currTotal, val.Stake, new(big.Int))
+	}
 	selfPenalty := new(big.Int).Mul(per, val.SelfStake)
 	selfPenalty.Add(selfPenalty, rem)
 	selfPenalty.Add(selfPenalty, obligation)
